@@ -167,6 +167,53 @@ theorem runBy_eq_run (env : Nat → Vec K → Vec K) (i : Impl K) :
   | const d c => intro x; simp [runBy, callOf, CExpr.eval, run]
   | zero d => intro x; simp only [runBy, callOf, CExpr.eval, run]; rfl
 
+/-- the EXTRACTED in-place statement lists, interpreted with arbitrary contents of the `out`
+buffer (`o`) and of every fresh temporary (`junk`), compute what `run` computes -/
+theorem runInBy_eq_run (env : Nat → Vec K → Vec K) (junk : Vec K) (i : Impl K) :
+    ∀ x o, runInBy inplaceOf callOf env junk i x o = run env i x := by
+  have hb := runBy_eq_run env
+  induction i with
+  | leaf l => intro x o; rfl
+  | sum fn l r ihl ihr =>
+    intro x o; funext j
+    cases fn <;> simp [runInBy, inplaceOf, Prog.exec, execStmts, Stmt.exec, St.set, St.get,
+      Opd.val, run, ihl, ihr] <;> ring
+  | scalSum f c ih => intro x o; simp only [runInBy, hb]
+  | vecSum a v ih =>
+    intro x o
+    simp [runInBy, inplaceOf, Prog.exec, execStmts, Stmt.exec, St.set, St.get, Opd.val, run, ih]
+  | comp fn l r ihl ihr =>
+    intro x o
+    cases fn <;> by_cases hr : r.ran = Sp.fld <;>
+      simp [runInBy, inplaceOf, Prog.exec, execStmts, Stmt.exec, St.set, St.get, Opd.val, run,
+        ihl, ihr, hb, hr]
+  | pprod fn l r ihl ihr =>
+    intro x o; funext j
+    cases fn <;> simp [runInBy, inplaceOf, Prog.exec, execStmts, Stmt.exec, St.set, St.get,
+      Opd.val, run, ihl, ihr] <;> ring
+  | quot l r ihl ihr => intro x o; simp only [runInBy, hb]
+  | lscal fn a s ih =>
+    intro x o; funext j
+    cases fn <;> simp [runInBy, inplaceOf, Prog.exec, execStmts, Stmt.exec, St.set, St.get,
+      Opd.val, run, ih] <;> ring
+  | rscal fn a s ih =>
+    intro x o
+    cases fn <;> simp [runInBy, inplaceOf, Prog.exec, execStmts, Stmt.exec, St.set, St.get,
+      Opd.val, run, ih]
+  | lvec a v ih =>
+    intro x o
+    simp [runInBy, inplaceOf, Prog.exec, execStmts, Stmt.exec, St.set, St.get, Opd.val, run, ih]
+  | rvec fn a v ih =>
+    intro x o
+    cases fn <;> simp [runInBy, inplaceOf, Prog.exec, execStmts, Stmt.exec, St.set, St.get,
+      Opd.val, run, ih]
+  | flvec a v ih =>
+    intro x o; funext j
+    simp [runInBy, inplaceOf, Prog.exec, execStmts, Stmt.exec, St.set, St.get, Opd.val, run, hb]
+    ring
+  | const d c => intro x o; simp only [runInBy, hb]
+  | zero d => intro x o; simp only [runInBy, hb]
+
 theorem fnRan_opRMulScal (a : Impl K) (s : K) (h : FnRan a) : FnRan (opRMulScal s a) :=
   fnRan_of_ty (ty_opRMulScal a s h) h
 
